@@ -77,6 +77,6 @@ func init() {
 			"panics and refusals of an edit are counted (panics_observed, edits_refused) but are not violations: the statement speaks of successful edits only",
 			"import update: the old path is always given in the spelling used by the text, the renamed file set contains the file under its new name only; removal (nil) is checked against the unchanged file set",
 		},
-		Extra: c36ImportPhase,
+		Extra: c36ImportPhase, ExtraOracles: map[string]eng.Oracle{"import": importOracle},
 	})
 }
